@@ -457,3 +457,22 @@ uint64_t X_div(uint32_t a, uint32_t b)
   int32_t q = (int32_t)a / (int32_t)b, r = (int32_t)a % (int32_t)b;
   return (uint64_t)(uint32_t)q | ((uint64_t)(uint32_t)r << 32);
 }
+
+/* A cheaper, behaviourally equivalent model of std::vector<unsigned int>::_M_realloc_insert(pos = end, value), used where
+ * a harness CUTS the real one: always grows to a fixed capacity of 16 elements (capacity is not observable by the
+ * client code), so the heap shape stays concrete.  More than 16 elements is reported. */
+void X__ZNSt6vectorIjSaIjEE17_M_realloc_insertIJRKjEEEvN9__gnu_cxx17__normal_iteratorIPjS1_EEDpOT_(void *self, void *pos, void *val)
+{
+  uint32_t **v = (uint32_t **)self;                 /* { begin, end, end_of_storage } */
+  uint64_t n = ((uint64_t)(uintptr_t)v[1] - (uint64_t)(uintptr_t)v[0]) / 4;
+  VF_ASSERT((uint32_t *)pos == v[1], "vector model: insertion at the end only");
+  VF_ASSERT(n < 16, "vector model: at most 16 elements");
+  uint32_t *nb = (uint32_t *)vf_alloc(16 * sizeof(uint32_t));
+#define VF_CP(i) if ((i) < n) nb[i] = v[0][i];
+  VF_CP(0) VF_CP(1) VF_CP(2) VF_CP(3) VF_CP(4) VF_CP(5) VF_CP(6) VF_CP(7)
+  VF_CP(8) VF_CP(9) VF_CP(10) VF_CP(11) VF_CP(12) VF_CP(13) VF_CP(14) VF_CP(15)
+#undef VF_CP
+  nb[n] = *(uint32_t *)val;
+  if (v[0]) free(v[0]);
+  v[0] = nb; v[1] = nb + n + 1; v[2] = nb + 16;
+}
